@@ -90,6 +90,9 @@ func NewParameterPool[T any](
 				"failed to persist generated parameter: [%w]",
 				err,
 			)
+			// The parameter could not be persisted. Do not add it (or the
+			// nil result of the failed save) to the pool.
+			return
 		}
 
 		select {
